@@ -355,7 +355,7 @@ func main() {
 			out[i] = &cr
 		}
 		// a Core start refused by the machine (limits shared with other processes) is not an observation
-		for round := 0; round < 8; round++ {
+		for round := 0; round < 10; round++ {
 			var idx []int
 			var again []any
 			for i, cr := range out {
@@ -368,12 +368,15 @@ func main() {
 				break
 			}
 			envRetries += len(idx)
-			time.Sleep(time.Duration(250*(round+1)) * time.Millisecond)
-			// two at a time: fewer Cores alive while the machine is short of inotify instances
-			var prs []c12lib.Result
-			for lo := 0; lo < len(again); lo += 2 {
-				prs = append(prs, pool.Run(again[lo:min(lo+2, len(again))])...)
+			time.Sleep(time.Duration(500*(round+1)) * time.Millisecond)
+			// fewer Cores alive from now on: the machine is short of inotify instances (limit shared with other processes)
+			if pool.Limit == 0 || pool.Limit > 2 {
+				pool.Limit = max(2, pool.N/2)
+				if round > 1 {
+					pool.Limit = 2
+				}
 			}
+			prs := pool.Run(again)
 			for k, pr := range prs {
 				var cr CaseResult
 				if pr.Crash != "" {
@@ -387,7 +390,7 @@ func main() {
 		}
 		for i, cr := range out {
 			if cr.Env != "" {
-				fail("case %s: %s (9 attempts)", list[i].label, cr.Env)
+				fail("case %s: %s (11 attempts over 30 s)", list[i].label, cr.Env)
 			}
 		}
 		return out
@@ -672,6 +675,8 @@ func main() {
 	if len(states) < 4 && *flagOnly == "" {
 		fail("vacuous: only %d distinct reload classes", len(states))
 	}
+	pool.Close()
+	os.RemoveAll(tmp) // Finish exits the process: deferred calls do not run
 	r.Finish()
 }
 
